@@ -33,6 +33,7 @@ for line in r2.stdout.splitlines():
     if len(f) >= 2 and f[1].startswith("exit="):
         res[f[0]] = {"exit": int(f[1][5:]), "line": line.strip()[:400]}
 meta["checks_quick"] = res
-meta["caught_by"] = [p for p, v in res.items() if v["exit"] == 1]
+# caught = the check exited 1 AND printed a VIOLATION line (a crash of the check is not a catch)
+meta["caught_by"] = [p for p, v in res.items() if v["exit"] == 1 and "VIOLATION property=" in v["line"]]
 json.dump(meta, open(D + "/meta.json", "w"), indent=1, ensure_ascii=False)
 print("kept", D, "caught_by", meta["caught_by"])
